@@ -90,7 +90,13 @@ def pseudo_value(name, value):
     if name == "PUSH [tag]":
         # tags stay recognisable in JUMP events but never collide with small literals
         return (0x7A6 << 64) | (int(str(value), 16) if value is not None else 0)
-    v = _h("pseudo", name, str(value))
+    key = str(value)
+    if name in ("PUSH data", "PUSHLIB", "PUSHIMMUTABLE", "PUSH #[$]", "PUSH [$]"):
+        try:
+            key = "%x" % int(key, 16)        # hex numbers for the assembler: case/leading zeros irrelevant
+        except ValueError:
+            pass
+    v = _h("pseudo", name, key)
     if name in ("PUSHLIB", "PUSHDEPLOYADDRESS"):
         return v & M160
     if name in ("PUSH #[$]", "PUSH [$]", "PUSH data", "PUSHSIZE"):
